@@ -1355,6 +1355,14 @@ def extract_closure(src, spec, unit_rules):
             if len(c) <= rg.get("n", 0):
                 raise LostAnchor(f"if `{rg['cond_contains']}` of {spec['path']}")
             body, is_block = list(c[rg.get("n", 0)]["then"]), True
+        elif rg["kind"] == "stmts":
+            # the top-level statements of the function from the first one that mentions a text to the last
+            st = fn.get("stmts") or []
+            want = rg["from_contains"].replace(" ", "")
+            first = [i for i, r_ in enumerate(st) if want in re.sub(r"\s+", "", src.text(*r_))]
+            if not first:
+                raise LostAnchor(f"statement mentioning `{rg['from_contains']}` of {spec['path']}")
+            body, is_block = [st[first[0]][0], st[-1][1]], False
         else:
             raise Unsupported(f"region kind {rg['kind']}")
         cl = {"inputs": [], "body": body, "body_is_block": is_block}
